@@ -493,3 +493,74 @@ def broadcast_is_the_whole_star(ctx):
                               'parse produces Broadcast (line %d) without the remaining expression being exactly "*": a star that begins '
                               'an attribute name is swallowed' % st['ln'], 'under e == "*"', fb.where(st['ln']))
     ctx.floor(n, 1, 'Broadcast constructions in parse')
+
+
+@rule('C15', 'conjunction-keeps-every-operand')
+def conjunction_keeps_every_operand(ctx):
+    """'logically equivalent to the boolean expression': the operands the parser queued between two `||` are ALL and-ed together.
+    Wherever the parser's helpers fold a sequence of policies (`conjugate`), the step that combines the accumulator with the next
+    operand runs for every operand: the `&` call sits on every path from the arrival of an operand (the entry of the fold closure,
+    or the `Some` edge of the loop's `next()`) to the point where the step is over. A fast path that hands the accumulator back
+    (`if res == Broadcast { res }`) drops an operand: `D::A && *`... is fine, but `* && D::A` would become `*`."""
+    F = ctx.F
+    n = 0
+    for key in ('%s::parse' % AP, '%s::conjugate' % AP):
+        if key not in F:
+            continue
+        for fb in lib.family_ext(F, key):
+            ands = fb.calls(r'^std::ops::BitAnd::bitand$')
+            ands = [c for c in ands if AP in (c.self_ty or '') or AP in c.full]
+            if not ands:
+                continue
+            blocks = [c.b for c in ands]
+            if fb.kind == 'Closure' and any(cc.is_(r'^std::iter::Iterator::(fold|try_fold|reduce|for_each|try_for_each)$')
+                                            for (_pb, cc, _i) in lib.closure_consumers(F, fb)):
+                n += 1
+                rets = fb.return_blocks()
+                ok = bool(rets) and all(not _reachable_avoiding(fb, 0, r, blocks) for r in rets)
+                ctx.check(ok, fb.key, 'every operand is and-ed in',
+                          'the folding step of %s can finish without combining the accumulator with the operand it was given: that '
+                          'operand disappears from the parsed policy' % key.split('::')[-1], '`acc & operand` on every path',
+                          fb.where(ands[0].ln))
+                continue
+            # loop form: from the Some edge of next() back to next() only through the `&`
+            for nx in fb.calls(r'^std::iter::Iterator::next$', r'::pop_front$'):
+                if nx.target is None:
+                    continue
+                # is the `&` inside the loop of this next()?  (next() reachable from the `&`)
+                if not any(nx.b in fb.reach(b) for b in blocks):
+                    continue
+                n += 1
+                some_targets = _some_targets(fb, nx)
+                ok = bool(some_targets) and all(not _reachable_avoiding(fb, s, nx.b, blocks) for s in some_targets)
+                ctx.check(ok, fb.key, 'every operand is and-ed in',
+                          'the loop of %s that folds the queued operands can go round without combining the accumulator with the '
+                          'operand it took: that operand disappears from the parsed policy' % fb.key.split('::')[-1],
+                          '`acc & operand` on every iteration', fb.where(ands[0].ln))
+    ctx.floor(n, 1, 'folding steps of the parser (conjugate)')
+
+
+def _reachable_avoiding(body, start, target, avoid_blocks):
+    if start in avoid_blocks:
+        return False
+    return target in body.reach(start, avoid_blocks=tuple(avoid_blocks))
+
+
+def _some_targets(body, nx):
+    """Blocks entered when the Option produced by call `nx` is Some (through the switch on its discriminant)."""
+    out = []
+    for b in sorted(body.live_blocks()):
+        t_ = body.term(b)
+        if t_['k'] != 'switch' or not is_place(t_['d']):
+            continue
+        _, d = lib.resolve_copy(body, op_local(t_['d']))
+        if d is None or d.kind != 'assign' or d.rv['k'] != 'discr':
+            continue
+        srcs = copy_chain_sources(body, {'cp': d.rv['pl']}, through_calls=tuple(IDENTITY_CALLS))
+        if srcs and all(s[0] == 'call' and s[1].b == nx.b for s in srcs):
+            for v, tgt in t_['cases']:
+                if v == 1:
+                    out.append(tgt)
+            if not any(v == 1 for v, _t in t_['cases']):
+                out.append(t_['else'])
+    return out
